@@ -51,7 +51,7 @@ def run_property(prop, tier, seed, opts):
     rep = Report(prop, tier, seed)
     known, fixed = D.load_known(prop)
     baseline = D.load_baseline()
-    outdir = os.path.join(VERIF, "out", "obl", prop)
+    outdir = os.path.join(os.environ.get("VERIF_OUT") or os.path.join(VERIF, "out"), "obl", prop)
     if os.path.isdir(outdir):
         import shutil
         shutil.rmtree(outdir)
